@@ -189,9 +189,19 @@ func (t *tr) block(stmts []ast.Stmt, n int, k cont) []string {
 		var bodies [][]ast.Stmt
 		var pre []string
 		cur := x
+		if x.Init != nil {
+			// if v := e; cond { … }: the init statement is executed in front of the if.  v then stays visible to
+			// the Lean continuation (it is not in Go), hence checkInitScope.
+			as, ok := x.Init.(*ast.AssignStmt)
+			if !ok || as.Tok != token.DEFINE {
+				fatal(x.Init.Pos(), "if with an init statement that is not a `:=` definition")
+			}
+			t.checkInitScope(as)
+			pre = append(pre, t.assign(as, n)...)
+		}
 		for {
-			if cur.Init != nil {
-				fatal(cur.Pos(), "if with an init statement")
+			if cur.Init != nil && cur != x {
+				fatal(cur.Pos(), "else-if with an init statement")
 			}
 			if len(conds) > 0 {
 				t.noHoist++
@@ -346,6 +356,43 @@ func (t *tr) assignedOuter(node ast.Node) []*types.Var {
 		return true
 	})
 	return out
+}
+
+// checkInitScope: the variables defined by the init statement of an `if` are emitted as `let`s in front of the Lean `if`
+// and therefore remain visible in the translated continuation, where Go has already closed their scope.  That is
+// harmless only if no other object of the same name (local, parameter, result, package-level or universe) is declared
+// or referenced anywhere in the function.
+func (t *tr) checkInitScope(as *ast.AssignStmt) {
+	for _, l := range as.Lhs {
+		id, ok := unparen(l).(*ast.Ident)
+		if !ok {
+			fatal(l.Pos(), "init statement target `%s`", oneLine(l))
+		}
+		if id.Name == "_" {
+			continue
+		}
+		o := t.pi.info.Defs[id]
+		if o == nil {
+			fatal(id.Pos(), "the init statement of an if re-assigns `%s` (only new variables are translated)", id.Name)
+		}
+		ast.Inspect(t.fdecl, func(m ast.Node) bool {
+			other, ok := m.(*ast.Ident)
+			if !ok || other.Name != id.Name {
+				return true
+			}
+			oo := t.pi.info.Defs[other]
+			if oo == nil {
+				oo = t.pi.info.Uses[other]
+			}
+			if v, isVar := oo.(*types.Var); isVar && v.IsField() {
+				return true
+			}
+			if oo != o {
+				fatal(other.Pos(), "`%s` is declared by the init statement of an if and the same name denotes something else in the function (scoping is not translated)", id.Name)
+			}
+			return true
+		})
+	}
 }
 
 // checkNoShadowing: the continuation of a branching statement is translated INSIDE the Lean term of a branch (or the
